@@ -340,7 +340,7 @@ pub fn run(tier: Tier, shard: Shard, stats: &mut Stats, case: &mut u64) {
                         match r {
                             Err(p) => stats.violation(Violation { class: format!("panic: {}", panic_class(&p)), config: "rayon".into(), history: hist, detail: p }),
                             Ok(Err((class, detail))) => stats.violation(Violation { class: format!("rayon with_producer: {class}"), config: "rayon".into(), history: hist, detail }),
-                            Ok(Ok((h, nt))) => stats.state(h, nt),
+                            Ok(Ok((h, nt))) => stats.state_outcome(h, nt),
                         }
                     }
                 }
@@ -376,7 +376,7 @@ pub fn run(tier: Tier, shard: Shard, stats: &mut Stats, case: &mut u64) {
                     match r {
                         Err(p) => stats.violation(Violation { class: format!("panic: {}", panic_class(&p)), config: "rayon".into(), history: hist, detail: p }),
                         Ok(Err((class, detail))) => stats.violation(Violation { class: format!("rayon drive: {class}"), config: "rayon".into(), history: hist, detail }),
-                        Ok(Ok((h, nt))) => stats.state(h, nt),
+                        Ok(Ok((h, nt))) => stats.state_outcome(h, nt),
                     }
                 }
             }
@@ -415,7 +415,7 @@ pub fn run(tier: Tier, shard: Shard, stats: &mut Stats, case: &mut u64) {
                     match r {
                         Err(p) => stats.violation(Violation { class: format!("panic: {}", panic_class(&p)), config: "rayon".into(), history: hist, detail: p }),
                         Ok(Err((class, detail))) => stats.violation(Violation { class: format!("rayon drive: {class}"), config: "rayon".into(), history: hist, detail }),
-                        Ok(Ok((h, nt))) => stats.state(h, nt),
+                        Ok(Ok((h, nt))) => stats.state_outcome(h, nt),
                     }
                 }
             }
